@@ -14,7 +14,7 @@ def run(chk):
     exe = build()
     # a larger quarantine keeps freed blocks poisoned longer: use-after-free of an element handed back shows up as a report
     env = {'ASAN_OPTIONS': vf.ASAN_ENV['ASAN_OPTIONS'] + ':quarantine_size_mb=64'}
-    chk.run('asan', exe, chk.pick(3000, 20000), env=env)
+    chk.run('asan', exe, chk.pick(3000, 120000), env=env)
     chk.rule = ('case = one generated program (1-50 steps) over strings, ustrings, buffers, pairs, tokenizers, URLs, regexps, lists/vectors/maps of '
                 'all three implementations and iterators, with an explicit ownership pool (hand-in, hand-out, copies, done+reuse, early deletion, '
                 'deletion of non-empty containers); each program runs twice in one process under ASan malloc/free hooks; oracle: no block allocated '
